@@ -28,7 +28,7 @@ def payload_src(body, local, variant, field):
 
 
 def run(prog, rep, tier):
-    le = one_body(prog, rep, 'R12', 'mla', prefix='helpers::linear_extract')
+    le = one_body(prog, rep, 'R12', 'mla', exact='helpers::linear_extract')
     if le is None or le.kind == 'Closure':
         return
     body = le
